@@ -475,7 +475,9 @@ theorem init_shape (c : Codec) (b : Block) (o : Oti) (k bs sbn : Nat) (b' : Bloc
     · simp at h
   · simp at h
   · split at h
-    · simp at h; rw [← h]; simp
+    · split at h
+      · simp at h
+      · simp at h; rw [← h]; simp
     · simp at h
   · split at h
     · simp at h
